@@ -83,7 +83,7 @@ static void o_ptr(const char *name, int k, Node *p) {
    order, along `next` from `head`) and keeps it while it stays on some list; `links<k>=[id:data:prev:next,...]` prints the
    actual prev/next pointers through that table (`-` NULL, `?` a pointer to no listed node).  The Lean driver runs the
    pointer-level model (Model/PList.lean) alongside and numbers its nodes in the same way, so L3 compares the link
-   structure and the identity of the nodes.  After an operation that has no pointer-level model (sort*, filter_mut, mk_*)
+   structure and the identity of the nodes.  After an operation that has no pointer-level model (sort*, mk_*)
    both sides renumber from scratch. */
 #define DCAP (1u << 19)
 typedef struct { Node *p; unsigned long id; unsigned long gen; } DEnt;
@@ -181,7 +181,7 @@ static void do_op(Cmd *c) {
     int is_it = !strncmp(c->op, "it_", 3) || !strncmp(c->op, "dit_", 4) || !strncmp(c->op, "zit_", 4);
     if (!is_it && !is_op(c, "observe")) it_kind = 0;
     {   /* operations without a pointer-level model: renumber the nodes afterwards (Driver/DList.lean: plUnsupported) */
-        static const char *un[] = { "sort", "sort_in_place", "filter_mut", "mk_sub", "mk_copy_shallow", "mk_copy_deep", "mk_filter", NULL };
+        static const char *un[] = { "sort", "sort_in_place", "mk_sub", "mk_copy_shallow", "mk_copy_deep", "mk_filter", NULL };
         int k0 = (int)kv_u64(c, "o", 0), f0 = (int)kv_u64(c, "from", 1), t0 = (int)kv_u64(c, "to", 1);
         if (k0 >= 0 && k0 < NSLOT && f0 >= 0 && f0 < NSLOT && t0 >= 0 && t0 < NSLOT)
             for (int i = 0; un[i]; i++) if (is_op(c, un[i])) links_renumber = 1;
@@ -233,13 +233,12 @@ static void do_op(Cmd *c) {
                 if (st == CC_OK) it_changed = 0;
                 o_stat(st); if (st == CC_OK && !noout) { o(" out=%llu", VAL(out1)); if (want == 3) o(" out2=%llu", VAL(out2)); } o(" ");
             } else if (!strcmp(sub, "add")) {
-                if (!last || it_changed) { o("st=- contract "); goto done; }
+                if (!last) { o("st=- contract "); goto done; }
                 st = want == 1 ? cc_list_iter_add(&it, PTR(v)) : want == 2 ? cc_list_diter_add(&it, PTR(v))
                                                                            : cc_list_zip_iter_add(&zit, PTR(v), PTR(pos_u64(c, 1)));
                 if (st == CC_OK) it_changed = 1;
                 o_stat(st); o(" ");
             } else if (!strcmp(sub, "remove")) {
-                if (last && it_changed) { o("st=- contract "); goto done; }
                 st = want == 1 ? cc_list_iter_remove(&it, noout ? NULL : &out1) : want == 2 ? cc_list_diter_remove(&it, noout ? NULL : &out1)
                                                                              : cc_list_zip_iter_remove(&zit, noout ? NULL : &out1, noout ? NULL : &out2);
                 if (st == CC_OK) it_changed = 1;
